@@ -123,8 +123,20 @@ pub fn run_ops(ctx: &mut Ctx) {
         let n = rng.range(1, 7) as usize;
         let mut files: Vec<(PathBuf, Vec<u8>)> = Vec::new();
         let mut prev: Option<Gen> = None;
+        let mut dir_prefixes: BTreeSet<u64> = BTreeSet::new();
+        let mut dir_xorbs: BTreeSet<MerkleHash> = BTreeSet::new();
         for i in 0..n {
             let g = match (&prev, rng.below(4)) { (Some(p), 0) => Gen { cas: p.cas.clone(), files: p.files.clone() }, (Some(p), 1) => related(&mut rng, p, 3), _ => { let (n1, n2) = (rng.range(0, 8) as usize, rng.range(0, 8) as usize); gen_content(&mut rng, n1, n2, 0, false) } };
+            // no two chunk-table rows of the directory share a truncated hash (twin copies of one xorb excepted: a union keeps one):
+            // merged bytes, hence merged names, are then independent of how the unstable sort breaks ties, and the model can decide
+            // exactly like the code whether a merge reproduces a shard that is already there (ties are exercised by the set-operation
+            // cases above, compared on canonical bytes)
+            let mut g = g;
+            for c in g.cas.iter_mut() {
+                if dir_xorbs.contains(&c.metadata.cas_hash) { continue; }
+                for ch in c.chunks.iter_mut() { while !dir_prefixes.insert(ch.chunk_hash[0]) { ch.chunk_hash = rand_hash(&mut rng); } }
+                dir_xorbs.insert(c.metadata.cas_hash);
+            }
             let (mem, bytes, _) = build(&g);
             if mem.is_empty() && rng.chance(1, 2) { continue; }
             let p = mem.write_to_directory(&dir).unwrap();
